@@ -62,12 +62,18 @@ type witness struct {
 
 var snap []wire.Elem
 
+// protoOnly restricts the scenarios to one protocol (pipeline tiers of C03/C06/C07/C08).
+var protoOnly string
+
 // buildScenario makes scenario number idx for the mode ("alias" C12, "account" C13, "mirror" C16).
 func buildScenario(seed int64, mode string, idx int, thorough bool) *scenCase {
 	g := mon.NewRNG(seed, "pipe-"+mode, idx)
 	protos := []string{"ipfix", "nf9", "nf5", "sflow"}
 	if mode == "mirror" {
 		protos = []string{"ipfix", "sflow"}
+	}
+	if protoOnly != "" {
+		protos = []string{protoOnly}
 	}
 	proto := protos[idx%len(protos)]
 	variant := idx / len(protos)
@@ -342,6 +348,10 @@ func main() {
 		pipeMain(args, "C13", "account")
 	case "C05":
 		pipeMain(args, "C05", "json")
+	case "C03", "C06", "C07", "C08":
+		// pipeline tier of a decoding property: the alias scenarios of its own protocol only
+		protoOnly = map[string]string{"C03": "ipfix", "C06": "nf9", "C07": "sflow", "C08": "nf5"}[args.Prop]
+		pipeMain(args, args.Prop, "alias")
 	case "C16":
 		mirrorMain(args)
 	default:
@@ -403,7 +413,7 @@ func checkPublished(run *mon.Run, prop string, sc *scenCase, ro runOut, idx int,
 			// C12: payload of no fed datagram; find the nearest for the report
 			w := wit("a published payload carries an identity that no fed datagram with records has")
 			w.Got = clip(string(b), 600)
-			if prop == "C12" || prop == "C05" {
+			if aliasLike(prop) {
 				run.Violation("pipe:"+proto+":foreign-payload", fmt.Sprintf("%s: published payload with identity %s matches no fed datagram: %s", sc.Desc, key, clip(string(b), 200)), w)
 			} else {
 				run.Violation("pipe:"+proto+":published-not-received", fmt.Sprintf("%s: a message with identity %s was published although no received datagram yields it", sc.Desc, key), w)
@@ -420,7 +430,7 @@ func checkPublished(run *mon.Run, prop string, sc *scenCase, ro runOut, idx int,
 			w.Got, w.Dgram, w.Exporter = clip(string(b), 1500), mon.Hex(f.Dgram), mon.Hex(f.Addr)
 			run.Violation("pipe:"+proto+":invalid-json", fmt.Sprintf("%s: datagram %d: the published payload is not valid JSON: %s", sc.Desc, f.ID, clip(string(b), 200)), w)
 		}
-		if (prop == "C12" || prop == "C05") && !bytes.Equal(b, f.Expect) {
+		if aliasLike(prop) && !bytes.Equal(b, f.Expect) {
 			w := wit("published payload differs from what decoding the datagram alone produces")
 			w.Got, w.Want, w.Dgram, w.Exporter = clip(string(b), 1500), clip(string(f.Expect), 1500), mon.Hex(f.Dgram), mon.Hex(f.Addr)
 			at := 0
@@ -433,7 +443,7 @@ func checkPublished(run *mon.Run, prop string, sc *scenCase, ro runOut, idx int,
 			run.Violation("pipe:"+proto+":published-twice", fmt.Sprintf("%s: datagram %d was published twice", sc.Desc, f.ID), wit("duplicate"))
 		}
 	}
-	if prop == "C12" || prop == "C05" {
+	if aliasLike(prop) {
 		// "byte-for-byte what decoding that datagram on its own would produce": if that is a message, nothing at
 		// all is not it (the queue never holds more than 800 messages between two barriers, so it never fills)
 		for k, f := range byKey {
@@ -557,6 +567,9 @@ func pipeMain(args mon.Args, prop, mode string) {
 		if mode == "json" {
 			nPlain, nRace = run.Pick(12, 200), run.Pick(0, 40)
 		}
+		if protoOnly != "" {
+			nPlain, nRace = run.Pick(9, 120), run.Pick(2, 30)
+		}
 		for i := 0; i < nPlain; i++ {
 			jobs = append(jobs, job{i, false})
 		}
@@ -658,6 +671,8 @@ func pipeMain(args mon.Args, prop, mode string) {
 	run.Set("race_reports_by_frames", raceEntries)
 	if mode == "json" {
 		run.SetRule("pipeline tier of C05: the C12 scenarios with hostile field contents (strings with quotes/backslashes/control/non-UTF-8 octets, NaN/Inf floats, booleans, MAC addresses forced into every template) through the real worker goroutines; every payload taken from the message-queue channel must be a valid JSON document and byte-identical to the stand-alone library encoding that the first tier validated member by member. distinct = scenario configuration")
+	} else if mode == "alias" && protoOnly != "" {
+		run.SetRule("pipeline tier of " + prop + ": the C12 scenarios restricted to " + protoOnly + " - what the real worker goroutine publishes for a datagram (decode + JSON encoding + hand-over to the queue, with bursts queued behind a consumer that drains only at barriers) must be byte-for-byte the stand-alone library decode and encoding that the first tier validates field by field. distinct = scenario configuration")
 	} else if mode == "alias" {
 		run.SetRule("scenarios for the in-repo driver (real ipfixWorker/netflowV9Worker/netflowV5Worker/sFlowWorker goroutines, real channels and sync.Pool buffers): templates announced and frozen behind a barrier (workers joined), then 100-900 datagrams of alternating size (maximum-size followed by tiny) from 1-50 exporters, each with a unique identity (exporter, sequence) and identity-derived values; worker counts {1,2,3,8,64,200} × GOMAXPROCS {1,2,16} × max-udp-size {512,1500,9000}, plain and race builds. The message-queue channel is drained only after the workers joined. Oracle: every published payload is byte-for-byte what the library decoder produces for that datagram alone on a private cache fed the same templates (sFlow collector time masked). distinct = scenario configuration; non-trivial = something was published")
 	} else {
@@ -665,4 +680,13 @@ func pipeMain(args mon.Args, prop, mode string) {
 	}
 	run.Assume("the driver re-implements the four lines of run() that hand a pool buffer to the workers; run() itself is exercised end to end (e2e engine)")
 	run.Finish()
+}
+
+// aliasLike: properties judged by "what is published equals the stand-alone decode, byte for byte".
+func aliasLike(prop string) bool {
+	switch prop {
+	case "C12", "C05", "C03", "C06", "C07", "C08":
+		return true
+	}
+	return false
 }
